@@ -36,8 +36,9 @@ type c20URL struct {
 }
 
 type c20Hdr struct {
-	Name string `json:"name"`
-	Val  string `json:"val"`
+	Name string   `json:"name"` // the key as filed in the map (not canonicalised)
+	Vals []string `json:"vals"`
+	Nil  bool     `json:"nilv"`
 }
 
 type c20Event struct {
@@ -55,6 +56,7 @@ type c20Event struct {
 	Host   string   `json:"host"`
 	Rurl   c20URL   `json:"rurl"`
 	Uurl   c20URL   `json:"uurl"`
+	Hmap   bool     `json:"hmap"` // the request has a header map at all
 	Hdr    []c20Hdr `json:"hdr"`
 	Svc    string   `json:"svc"`
 }
@@ -109,9 +111,16 @@ func (e *c20Event) concrete() *Event {
 		UpstreamService: e.Svc,
 	}
 	if e.Req {
-		h := http.Header{}
-		for _, kv := range e.Hdr {
-			h[kv.Name] = append(h[kv.Name], kv.Val)
+		var h http.Header
+		if e.Hmap {
+			h = http.Header{}
+			for _, kv := range e.Hdr {
+				if kv.Nil {
+					h[kv.Name] = nil
+				} else {
+					h[kv.Name] = append([]string{}, kv.Vals...)
+				}
+			}
 		}
 		ev.Request = &http.Request{Method: e.Method, RequestURI: e.URI, Proto: e.Proto, Host: e.Host, RemoteAddr: e.Raddr, Header: h}
 	}
@@ -530,11 +539,24 @@ func c20RandEvent(r *rand.Rand) (*c20Event, bool) {
 	if r.Intn(10) != 0 {
 		e.Uurl = c20URL{true, pick("http", "https"), e.Uaddr, pick("/", "/a/b", ""), pick("", "x=1")}
 	}
+	e.Hmap = r.Intn(15) != 0
 	if r.Intn(3) != 0 {
-		e.Hdr = append(e.Hdr, c20Hdr{"User-Agent", pick("curl/8", "", "Mozilla/5.0 (X11; \"q\")", "$remote_addr")})
+		e.Hdr = append(e.Hdr, c20Hdr{Name: "User-Agent", Vals: []string{pick("curl/8", "", "Mozilla/5.0 (X11; \"q\")", "$remote_addr")}})
 	}
-	if r.Intn(3) == 0 {
-		e.Hdr = append(e.Hdr, c20Hdr{"Referer", pick("http://r/", "-")})
+	switch r.Intn(8) {
+	case 0, 1:
+		e.Hdr = append(e.Hdr, c20Hdr{Name: "Referer", Vals: []string{pick("http://r/", "-")}})
+	case 2:
+		e.Hdr = append(e.Hdr, c20Hdr{Name: "Referer", Nil: true})
+	case 3:
+		e.Hdr = append(e.Hdr, c20Hdr{Name: "Referer", Vals: []string{}})
+	case 4:
+		e.Hdr = append(e.Hdr, c20Hdr{Name: "Referer", Vals: []string{"one", "two", "three"}})
+	case 5:
+		e.Hdr = append(e.Hdr, c20Hdr{Name: "referer", Vals: []string{"filed under a lower-case key"}})
+	}
+	if r.Intn(6) == 0 {
+		e.Hdr = append(e.Hdr, c20Hdr{Name: "X-None", Nil: r.Intn(2) == 0, Vals: []string{}})
 	}
 	return e, unixOK
 }
